@@ -236,7 +236,14 @@ class Interp:
                     p = cont.entries.get(e.left.value, (False, None))[0]
                     p = z3.BoolVal(p) if isinstance(p, bool) else p
                     return p if isinstance(op, ast.In) else z3.Not(p)
-            raise Unsupported('comparison %s' % ast.unparse(e))
+            # any other comparison of value terms: an uninterpreted predicate of the two terms
+            a = self.val(self.ev(e.left, path))
+            b = self.val(self.ev(e.comparators[0], path))
+            pred = z3.Function('cmp.' + type(op).__name__, Val, Val, z3.BoolSort())
+            return pred(a, b)
+        if isinstance(e, ast.BoolOp):
+            vs = [self.as_bool(self.ev(x, path)) for x in e.values]
+            return z3.And(*vs) if isinstance(e.op, ast.And) else z3.Or(*vs)
         if isinstance(e, ast.Call):
             return self.call(e, path)
         raise Unsupported('expression %s' % ast.unparse(e))
@@ -513,7 +520,7 @@ def analyse(task):
             m = s.model()
             model = {'given_keywords': sorted(k for k in uni if z3.is_true(m.eval(K.entries[k][0], model_completion=True))),
                      'user_value_is_None': sorted(k for k in uni if z3.is_true(m.eval(it.is_none(K.entries[k][1]), model_completion=True)))}
-        obs.append(dict(id=oid, kind=kind, label=label, props=['C03'], line=fd.lineno, note=note, expect='unsat',
+        obs.append(dict(id=oid, kind=kind, label=label, props=['C19'] if task == 'separation' else ['C03'], line=fd.lineno, note=note, expect='unsat',
                         verdict=verdict, backend='z3', time=round(time.time() - ts, 4), model=model, goal=str(goal)[:600], finding=None))
 
     for msg in impl_issues:
@@ -690,13 +697,20 @@ def differential(task, kw_sets, seed=0, n_inputs=6):
             n += 1
             if isinstance(want, tuple) or isinstance(got, tuple):
                 if want != got:
-                    bad.append(dict(inputs=pools.describe(inp), kwargs=K, evaluate=repr(got)[:200], documented=repr(want)[:200]))
+                    bad.append(dict(inputs=pools.describe(inp) if task != 'separation' else '<signals>', kwargs=K, evaluate=repr(got)[:200], documented=repr(want)[:200]))
                 continue
             if list(want) != list(got):
                 bad.append(dict(inputs=pools.describe(inp), kwargs=K, evaluate='keys %s' % list(got), documented='keys %s' % list(want)))
                 continue
             for k in want:
                 import numpy as np
+                if task == 'separation':
+                    same = isinstance(got[k], list) and np.shape(got[k]) == np.shape(want[k]) and \
+                        np.allclose(np.array(got[k], dtype=float), np.array(want[k], dtype=float), equal_nan=True)
+                    if not same:
+                        bad.append(dict(inputs='<signals>', kwargs=K, key=k, evaluate=repr(got[k])[:120], documented=repr(want[k])[:120]))
+                        break
+                    continue
                 scalar = isinstance(got[k], (int, float, bool, np.floating, np.integer, np.bool_))
                 if not scalar or not close(want[k], got[k]):
                     bad.append(dict(inputs=pools.describe(inp), kwargs=K, key=k, evaluate=repr(got[k])[:120], documented=repr(want[k])[:120]))
@@ -734,7 +748,8 @@ def replay(rec):
 def run(prop, tier, seed, known):
     results = []
     bounded = []
-    for task in TASKS:
+    tasks = TASKS if prop == 'C03' else ['separation']
+    for task in tasks:
         t0 = time.time()
         try:
             obs, info = analyse(task)
@@ -755,11 +770,11 @@ def run(prop, tier, seed, known):
                     o['native'] = dict(confirmed=False, detail='native replay crashed: %s' % ex)
         results.append(dict(kind='engine', engine='bundles', name='%s.evaluate' % task, status=status, detail=detail, paths=info.get('impl_paths', 0),
                             obligations=obs, inlined=[], used_contracts=[], gen_time=0, wall=round(time.time() - t0, 3), lib_used=[],
-                            props=['C03']))
+                            props=[prop]))
     ar = arity_obligations()
     results.append(dict(kind='engine', engine='bundles', name='metric-function result arity', status='ok', detail='', paths=0, obligations=ar,
                         inlined=[], used_contracts=[], gen_time=0, wall=0, lib_used=[], props=['C03']))
     # bounded stand-ins: (1) conformance of the filter_kwargs model, (2) native differential of every bundle
     from . import bundles_bounded
-    bounded.extend(bundles_bounded.run(tier, seed, results))
+    bounded.extend(bundles_bounded.run(tier, seed, results, tasks, prop))
     return dict(results=results, bounded=bounded)
